@@ -139,6 +139,7 @@ def cases(tier: str):
             yield dict(n=n, es=kinds_rotating(es, 0), falsy_inputs=False, form="tag_eq_id", ydefault=False, is_async=None)
     yield dict(n=3, es=[], special="identity", form="id", ydefault=False, falsy_inputs=False, is_async=None)
     yield dict(n=3, es=[], special="setup_chain", form="id", ydefault=False, falsy_inputs=False, is_async=None)
+    yield dict(n=3, es=[], special="unpacked", form="id", ydefault=False, falsy_inputs=False, is_async=None)
     yield dict(n=3, es=[], special="none_values", form="id", ydefault=False, falsy_inputs=False, is_async=None)
     yield dict(n=3, es=kinds_rotating([(0, 1), (1, 2)], 0), special="ellipsis", form="id", ydefault=True, falsy_inputs=False, is_async=None)
 
@@ -309,7 +310,70 @@ def run_setup_chain(acc, c):
     acc.transitions += 9
 
 
+UNPACKED_SRC = '''
+from tawazi import xn, dag
+
+@xn(unpack_to=2)
+def two(x):
+    return [x, [x, x]]          # a LIST of two elements: the value of the node is this list
+
+@xn
+def three(x):
+    return (x, x + 1, x + 2)    # unpacked to 2 at the call site: the value of the node keeps its three elements
+
+@xn
+def tail(a):
+    return ("tail", a)
+
+@dag
+def d(x):
+    a, b = two(x)
+    p, q = three(x, twz_unpack_to=2)
+    t = tail(a)
+    u = tail(q)
+    return t, u
+'''
+# (inputs, outputs, argument, expected value of the composed DAG)
+UNPACKED = [
+    ("d>!>x", "two", 3, [3, [3, 3]]),
+    ("d>!>x", ["two", "tail"], 3, ([3, [3, 3]], ("tail", 3))),
+    ("d>!>x", "three", 3, (3, 4, 5)),
+    ("d>!>x", ["three", "tail<<1>>"], 3, ((3, 4, 5), ("tail", 4))),
+    ("two", "tail", [9, 8], ("tail", 9)),
+    ("three", "tail<<1>>", (1, 2, 3), ("tail", 2)),
+]
+
+
+def run_unpacked(acc, c):
+    """nodes described with unpack_to / twz_unpack_to as OUTPUTS (and inputs) of a composed DAG: the composed DAG returns the node's
+    value as the node produced it (a list stays a list, a longer tuple keeps all its elements)"""
+    from ..build import exec_source
+    acc.cases += 1
+    for ins, outs, arg, want in UNPACKED:
+        ns = exec_source(UNPACKED_SRC)
+        d = ns["d"]
+        acc.evaluations += 1
+        case = dict(c, inputs=ins, outputs=outs)
+        try:
+            comp = d.compose("comp", ins, outs)
+        except Exception as e:  # noqa: BLE001
+            acc.violation(V("compose_refused", f"compose({ins!r}, {outs!r}) with unpacked nodes raised {e!r}"), case, (), None, UNPACKED_SRC)
+            continue
+        res = H.run_controlled(lambda: comp(arg))
+        acc.mark_nontrivial(("unpacked", repr(ins), repr(outs)))
+        if res.outcome != "return" or res.value != want or type(res.value) is not type(want):
+            acc.violation(V("composed_wrong_value", f"compose({ins!r}, {outs!r})({arg!r}) gave {res.outcome} {res.value!r} {res.exc!r}, expected {want!r}"),
+                          case, (), res.trace, UNPACKED_SRC)
+        r0 = H.run_controlled(lambda: d(3))
+        if r0.outcome != "return" or r0.value != (("tail", 3), ("tail", 4)):
+            acc.violation(V("original_changed", f"the original after compose({ins!r}, {outs!r}) returns {r0.value!r} ({r0.outcome} {r0.exc!r})"), case, (), r0.trace, UNPACKED_SRC)
+    acc.states += len(UNPACKED)
+    acc.transitions += len(UNPACKED)
+
+
 def run_one(acc, c):
+    if c.get("special") == "unpacked":
+        return run_unpacked(acc, c)
     if c.get("special") == "setup_chain":
         return run_setup_chain(acc, c)
     if c.get("special") == "identity":
